@@ -145,6 +145,14 @@ def gen(rng, tier):
             sig_ops.append(["spawn", aid])
             sig_ops.append(["sleep", 0.5])
     main += sig_ops
+    # the user may have exit()ed some (non-via-master) members himself before calling terminate
+    pre_exited = []
+    if len(members) >= 2 and rng.random() < 0.3:
+        cand = [gi for gi, pname, role in members if role in ("member", "sub")]
+        if cand:
+            gi = rng.choice(cand)
+            main.append(["gwexit", gi])
+            pre_exited.append(gi)
     if rng.random() < 0.3:
         main.append(["sleep", rng.choice([0.01, 0.5, 7.0])])
     main.append(["terminate", T])
@@ -154,7 +162,7 @@ def gen(rng, tier):
                                                                  "join_wait", "kill", "_terminate_execution", "serve"],
                                                           maxn=30, p=0.3),
             "faults": [], "mode": "terminate", "topo": topo, "T": T, "members": members, "progs": {str(k): val for k, val in progs.items()},
-            "fault_desc": faults_desc, "blocked_sender": blocked_sender, "depth": depth}
+            "fault_desc": faults_desc, "blocked_sender": blocked_sender, "depth": depth, "pre_exited": pre_exited}
 
 
 def gen_failing(rng, tier):
@@ -207,6 +215,7 @@ def execute(case, chooser):
     gwsim.check_harness(res, allow_reasons=("quiescent", "time-cap"))
     hist = L.Hist(res)
     V = oracle(case, res, hist)
+    V += gwsim.livelock_violation(res, case["topo"])
     called = any(True for _ in hist.ops(("terminate",)))
     sample = None
     if chooser.rng is not None and chooser.rng.random() < 0.004:
@@ -240,6 +249,11 @@ def oracle(case, res, hist):
         V.append(v("setup-failed", res.setup_error[1], res.setup_error[2]))
         return V
     term = [(aid, oi, op, s1, s2, r) for aid, oi, op, s1, s2, r in hist.ops(("terminate",))]
+    pre = [(op, r) for aid, oi, op, s1, s2, r in hist.ops(("gwexit",))]
+    if pre and pre[0][1] is None:
+        # the user's own gateway.exit() never returned (it is the first half of what terminate() does)
+        V.append(v("terminate-blocked", ctxkey, f"gateway.exit() before terminate never returned; blocked ops: {res.blocked[:3]}"))
+        never_quiet = False
     if term:
         aid, oi, op, s1, s2, r = term[0]
         T = op[1]
